@@ -50,8 +50,7 @@ Definition norm_text (s : string) : string := join " " (words s).
 
 (* the documented merges, as a transformation on reader blocks:
    - a heading that is the first block of an item counts as the item's text (paragraph);
-   - an item that starts with a list is merged into the enclosing list (what follows the
-     inner list in that item goes to the last merged item);
+   - an item that is nothing but a list is merged into the enclosing list;
    - empty items, and lists/quotes left without content, carry nothing. *)
 Fixpoint canon (b : dblock) {struct b} : list dblock :=
   let fix go (l : list dblock) {struct l} : list dblock :=
@@ -64,15 +63,11 @@ Fixpoint canon (b : dblock) {struct b} : list dblock :=
          | [] => []
          | DHeader lr _ il :: rest => [DPara lr il :: go rest]
          | ((DBList _ | DOList _) as first) :: rest =>
-             match canon first with
-             | [DBList inner] | [DOList inner] =>
-                 match rev inner with
-                 | [] => match go rest with [] => [] | s => [s] end
-                 | last :: before => rev before ++ [last ++ go rest]
-                 end
-             | _ => match go rest with [] => [] | s => [s] end
+             match go rest with
+             | [] => match canon first with [DBList inner] | [DOList inner] => inner | _ => [] end
+             | s => [canon first ++ s]
              end
-         | _ => [go it]
+         | _ => match go it with [] => [] | s => [s] end
          end) ++ items r
     end in
   match b with
@@ -198,9 +193,11 @@ Fixpoint inert_block (b : dblock) {struct b} : bool :=
   end.
 Definition inert_blocks (bs : list dblock) : bool := forallb inert_block bs.
 
-(* class "odd item lead" (F1, F18): an item whose first block is a code block, quote, table or
-   rule (the builder panics), or is a list and is followed by further blocks in the same item
-   (the blocks of the inner list's last item are overwritten) *)
+(* the shape "odd item lead" (F1, F18; formerly known-finding class 2, F-LEADPANIC / F-ITEMLEAD): an
+   item whose first block is a code block, quote, table or rule (the builder used to panic), or
+   is a list and is followed by further blocks in the same item (the blocks of the inner list's
+   last item used to be overwritten).  Repaired in the builder; the predicate classifies nothing
+   any more and is kept only to name the shape in examples. *)
 Fixpoint plain_items (b : dblock) {struct b} : bool :=
   let fix go (l : list dblock) : bool := match l with [] => true | x :: r => plain_items x && go r end in
   let fix goi (l : list (list dblock)) : bool :=
@@ -279,7 +276,7 @@ Definition p_identity (c : libcase) (o : note_obs) : bool :=
 Definition note_classes (c : libcase) (o : note_obs) : list N :=
   match note_blocks c (no_key o) with
   | Some bs =>
-      flag 1 (inert_blocks bs) ++ flag 2 (forallb plain_items bs) ++ flag 3 (forallb calm_items bs)
+      flag 1 (inert_blocks bs) ++ flag 3 (forallb calm_items bs)
   | None => [9%N]
   end.
 
@@ -462,9 +459,9 @@ Definition base_classes (c : libcase) (o : note_obs) : list N :=
 Definition has_kinds (c : libcase) : bool := lib_nontrivial c.
 
 (* correspondence stage 7: the specification of SectionsSpec.v against the transliterated cursor
-   machine (whose arena is compared with the implementation's in stage 1): for every note whose
-   blocks are in the claimed class, the tree read back from the arena, ids aside and before any
-   title refresh, is the tree the specification gives *)
+   machine (whose arena is compared with the implementation's in stage 1): for every note, the
+   tree read back from the arena, ids aside and before any title refresh, is the tree the
+   specification gives *)
 Definition spec_corr (c : libcase) : list N :=
   match model_graph c with
   | Panic _ => []
@@ -472,17 +469,15 @@ Definition spec_corr (c : libcase) : list N :=
       flag 7 (forallb (fun n =>
         match ni_blocks n with
         | Ok bs =>
-            if forallb plain_items bs then
-              let key := key_from_file_name (ni_name n) in
-              match alookup key (gr_keys g) with
-              | Some root =>
-                  match collect_raw (gr_arena g) root with
-                  | Ok (Some t) => tree_eqb_noid t (spec_tree key bs)
-                  | _ => false
-                  end
-              | None => false
-              end
-            else true
+            let key := key_from_file_name (ni_name n) in
+            match alookup key (gr_keys g) with
+            | Some root =>
+                match collect_raw (gr_arena g) root with
+                | Ok (Some t) => tree_eqb_noid t (spec_tree key bs)
+                | _ => false
+                end
+            | None => false
+            end
         | Panic _ => true
         end) (lc_notes c))
   end.
